@@ -252,6 +252,8 @@ pub struct Judgement {
     pub labels: Vec<&'static str>,
     /// the key is in the don't-care state (U1–U3 of upstream.rs): nothing was judged
     pub opaque: bool,
+    /// D8: the cache served the entry of an earlier stored insert (judged on its own terms)
+    pub older_entry_served: bool,
 }
 
 pub struct RefCache {
@@ -259,6 +261,12 @@ pub struct RefCache {
     pub slots: Vec<Option<Stored>>,
     /// identities of superseded stored inserts per key (to tell "older insert" from "garbage")
     pub older: Vec<Vec<View>>,
+    /// D8: per key, the superseded stored inserts with their insertion time, L and TTL history
+    pub older_st: Vec<Vec<Stored>>,
+    /// D8: a don't-care upstream message was received for the key since the last clear: the cache
+    /// may hold an entry for it that the model does not know (and that later results need not
+    /// have displaced)
+    pub maybe_unknown: Vec<bool>,
     /// a transient error was the last insert on that key
     pub last_was_transient: Vec<bool>,
     /// the last thing received for that key was an upstream message whose treatment is a don't-care
@@ -268,7 +276,7 @@ pub struct RefCache {
 
 impl RefCache {
     pub fn new(cfg: Config, nkeys: usize) -> Self {
-        Self { cfg, slots: vec![None; nkeys], older: vec![vec![]; nkeys], last_was_transient: vec![false; nkeys], opaque: vec![false; nkeys] }
+        Self { cfg, slots: vec![None; nkeys], older: vec![vec![]; nkeys], older_st: vec![vec![]; nkeys], maybe_unknown: vec![false; nkeys], last_was_transient: vec![false; nkeys], opaque: vec![false; nkeys] }
     }
 
     /// Build the stored register value for an insert (pure; also used by the threaded checker).
@@ -347,7 +355,12 @@ impl RefCache {
             if o.len() >= 64 {
                 o.remove(0);
             }
-            o.push(old.raw);
+            o.push(old.raw.clone());
+            let os = &mut self.older_st[key];
+            if os.len() >= 64 {
+                os.remove(0);
+            }
+            os.push(old);
         }
         self.slots[key] = Some(s);
         self.last_was_transient[key] = false;
@@ -368,9 +381,15 @@ impl RefCache {
             if o.len() >= 64 {
                 o.remove(0);
             }
-            o.push(old.raw);
+            o.push(old.raw.clone());
+            let os = &mut self.older_st[key];
+            if os.len() >= 64 {
+                os.remove(0);
+            }
+            os.push(old);
         }
         self.opaque[key] = true;
+        self.maybe_unknown[key] = true;
         self.last_was_transient[key] = false;
     }
 
@@ -385,6 +404,12 @@ impl RefCache {
         for o in self.opaque.iter_mut() {
             *o = false;
         }
+        for o in self.older_st.iter_mut().flatten() {
+            o.cleared = true;
+        }
+        for m in self.maybe_unknown.iter_mut() {
+            *m = false;
+        }
     }
 
     pub fn judge(&mut self, key: usize, now: u64, obs: &Obs) -> Judgement {
@@ -397,6 +422,30 @@ impl RefCache {
                 j.findings.push(Finding { rule: "panic", sig: p.clone(), expected: json!("no panic"), observed: obs.to_json() });
             }
             return j;
+        }
+        // D8: the cache returns an entry of an earlier stored insert instead of the latest one. The
+        // statement bounds how long an entry may be served after ITS insertion and how its TTLs
+        // move; it does not say that a later result must displace it (a cache may decline to store
+        // a result, e.g. a zero-TTL one: RFC 1035 3.2.1). The earlier entry becomes the one this
+        // key is judged against - on its own insertion time, L, TTL history and clear mark.
+        if let (Obs::Entry(v), Some(cur)) = (obs, self.slots[key].as_ref()) {
+            if !cur.raw.same_entry(v) {
+                // an entry without any tagged record (e.g. an empty negative answer) has no
+                // identity: it cannot be told from what a don't-care upstream message left behind
+                if self.maybe_unknown[key] && v.slots.iter().all(|s| s.tag == 0) {
+                    j.opaque = true;
+                    return j;
+                }
+                if let Some(ix) = self.older_st[key].iter().rposition(|o| o.raw.same_entry(v)) {
+                    let o = self.older_st[key].remove(ix);
+                    let cur = self.slots[key].replace(o).expect("checked");
+                    self.older_st[key].push(cur);
+                    j.older_entry_served = true;
+                } else if self.maybe_unknown[key] {
+                    j.opaque = true;
+                    return j;
+                }
+            }
         }
         let Some(st) = self.slots[key].as_mut() else {
             // nothing was ever stored for this key
